@@ -363,6 +363,44 @@ def make_recwrap(timeout):
     return Cond("recwrap", [(f"c{i}", int) for i in range(20)], body, mode="E3", timeout=timeout)
 
 
+def make_recwrap_nested(timeout):
+    """A NewType / alias *around* a recursive class, at the root and at nested positions, against the class itself."""
+
+    def body(c0: int, c1: int, c2: int, c3: int, c4: int, c5: int, c6: int, c7: int):
+        from typelib import codecs, marshals, unmarshals
+
+        from vlib import caches
+
+        ch = Chooser((c0, c1, c2, c3, c4, c5, c6, c7))
+        with NoTracing():
+            W = (wrapmod.RecPlainId, wrapmod.RecPlainAlias, t.Final[wrapmod.RecPlainAlias])[ch.pick(3)]
+            pos = POSITIONS[ch.pick(len(POSITIONS))]
+            if t.get_origin(W) is t.Final and pos not in ("root", "class_field"):
+                return None
+            _RC[0] = 0
+            wire = _rec_wire(ch, 1)
+            annW, xW = at_position(pos, W, wire)
+            annT, xT = at_position(pos, wrapmod.RecPlain, wire)
+            caches.clear_all()
+            reached()
+            site = str(getattr(W, "__name__", "Final")) + "@" + pos
+            for what, fn in (("unmarshaller", unmarshals.unmarshaller), ("marshaller", marshals.marshaller), ("codec", codecs.codec)):
+                try:
+                    wrapmod.call_here(fn, annW)
+                except Exception as e:  # noqa: BLE001
+                    return ("wrapped_type_fails_to_build:" + type(e).__name__, "recursive:" + site, _d(what, annW, e))
+            a, b = outcome(unmarshals.unmarshaller(annW), xW), outcome(unmarshals.unmarshaller(annT), xT)
+            if a[0] != b[0] or (a[0] and not deep_same(field_or_self(pos, a[1]), field_or_self(pos, b[1]))):
+                return ("unmarshal_differs", "recursive:" + site, _d(annW, wire, a, b))
+            if a[0] and pos != "class_field":
+                ma, mb = outcome(marshals.marshaller(annW), a[1]), outcome(marshals.marshaller(annT), b[1])
+                if ma != mb and not (ma[0] and mb[0] and deep_same(ma[1], mb[1])):
+                    return ("marshal_differs", "recursive:" + site, _d(annW, ma, mb))
+        return None
+
+    return Cond("recwrap/nested_positions", [(f"c{i}", int) for i in range(8)], body, mode="E3", timeout=timeout)
+
+
 def _drop_parent(m):
     return {"v": m["v"], "kids": [_drop_parent(k) for k in m["kids"]]}
 
@@ -410,6 +448,7 @@ def conditions(tier, seed):
         out.append(make_origin(base, to))
     out += [make_refexpr(w, to) for w in range(3)]
     out.append(make_recwrap(to))
+    out.append(make_recwrap_nested(to))
     for base in ("int", "list[int]", "Point", "WPoint"):
         for kind in wrapmod.WRAPPERS:
             out.append(make_sym(base, kind, 1 if tier == "quick" else 2, to))
